@@ -233,7 +233,8 @@ pub fn scenario(name: &str, params: &Value) -> Scenario {
             }),
         };
         let r1 = chz.choose(2) == 1;
-        let flavour = chz.choose(3) as u64;
+        // (3 -> 10: re-authentication between the CONNACK and run())
+        let flavour = [0u64, 1, 2, 10][chz.choose(4)];
         // 0 = idle client; 1 = a ping, a subscribe and an unsubscribe of other callers outstanding;
         // 2 = a QoS 1 publish of another caller unacknowledged (it holds a send-quota slot, which a
         //     refused request of whatever kind must neither take nor give back)
